@@ -170,6 +170,40 @@ func (c *Ctx) DerefSites(pk *packages.Package) []derefSite {
 			}
 			fn, _ := info.Defs[fd.Name].(*types.Func)
 			parents := parentMap(fd.Body)
+			// an optional link handed to a repository function that dereferences the parameter without a nil test
+			// is a dereference at the call site
+			ast.Inspect(fd.Body, func(n ast.Node) bool {
+				call, ok := n.(*ast.CallExpr)
+				if !ok {
+					return true
+				}
+				callee := Callee(info, call)
+				if callee == nil || c.P.Decls[callee] == nil {
+					return true
+				}
+				for i, a := range call.Args {
+					inner, ok := ast.Unparen(a).(*ast.SelectorExpr)
+					if !ok {
+						continue
+					}
+					link := inner.Sel.Name
+					if link != "Message" && link != "Enum" && link != "Oneof" {
+						continue
+					}
+					tv, ok := info.Types[inner.X]
+					if !ok || !typeIsNamed(tv.Type, "compiler/protogen", "Field") {
+						continue
+					}
+					if !c.derefsParamUnguarded(callee, i) {
+						continue
+					}
+					base := types.ExprString(ast.Unparen(inner.X))
+					site := derefSite{Fn: fn, Expr: inner, Base: base, Link: link}
+					site.Guard = c.findGuard(info, parents, a, base, link)
+					out = append(out, site)
+				}
+				return true
+			})
 			ast.Inspect(fd.Body, func(n ast.Node) bool {
 				outer, ok := n.(*ast.SelectorExpr)
 				if !ok {
@@ -273,4 +307,60 @@ func (c *Ctx) findGuard(info *types.Info, parents map[ast.Node]ast.Node, at ast.
 		}
 	}
 	return ""
+}
+
+// derefsParamUnguarded: the callee selects a field/method of its i-th parameter and has no `if p == nil { return … }`
+// ahead of it (top-level statements only).
+func (c *Ctx) derefsParamUnguarded(callee *types.Func, i int) bool {
+	decl := c.P.Decls[callee]
+	if decl == nil || decl.Body == nil {
+		return false
+	}
+	info := c.P.DeclPkg[callee].TypesInfo
+	var pobj types.Object
+	k := 0
+	for _, f := range decl.Type.Params.List {
+		for _, n := range f.Names {
+			if k == i {
+				pobj = info.Defs[n]
+			}
+			k++
+		}
+	}
+	if pobj == nil {
+		return false
+	}
+	if _, isPtr := pobj.Type().Underlying().(*types.Pointer); !isPtr {
+		return false
+	}
+	for _, st := range decl.Body.List {
+		// a nil test on the parameter that leaves the function guards everything after it
+		if ifs, ok := st.(*ast.IfStmt); ok && terminates(ifs.Body) {
+			guards := false
+			ast.Inspect(ifs.Cond, func(n ast.Node) bool {
+				if be, ok := n.(*ast.BinaryExpr); ok && be.Op == token.EQL {
+					if id, ok := ast.Unparen(be.X).(*ast.Ident); ok && info.ObjectOf(id) == pobj && isNilIdent(be.Y) {
+						guards = true
+					}
+				}
+				return true
+			})
+			if guards {
+				return false
+			}
+		}
+		derefs := false
+		ast.Inspect(st, func(n ast.Node) bool {
+			if sel, ok := n.(*ast.SelectorExpr); ok {
+				if id, ok := ast.Unparen(sel.X).(*ast.Ident); ok && info.ObjectOf(id) == pobj {
+					derefs = true
+				}
+			}
+			return true
+		})
+		if derefs {
+			return true
+		}
+	}
+	return false
 }
